@@ -34,7 +34,7 @@ def _scratch(repo, tag):
     return d
 
 
-def _run_driver(repo, which, case=None, budget=50, timeout=1500):
+def _run_driver(repo, which, case=None, budget=50, timeout=1500, extra_env=None):
     fname, test, case_env, budget_env = DRIVERS[which][:4]
     inline_into = DRIVERS[which][4] if len(DRIVERS[which]) > 4 else None
     src = os.path.join(VERIF, 'replay', fname)
@@ -57,6 +57,7 @@ def _run_driver(repo, which, case=None, budget=50, timeout=1500):
         env[budget_env] = str(budget)
         if case is not None:
             env[case_env] = case
+        env.update(extra_env or {})
         p = subprocess.run(cargo_args,
                            cwd=d, env=env, capture_output=True, text=True, timeout=timeout)
         return p.stdout + '\n' + p.stderr[-3000:], None
@@ -66,10 +67,48 @@ def _run_driver(repo, which, case=None, budget=50, timeout=1500):
         shutil.rmtree(d, ignore_errors=True)
 
 
+def run_obligation(repo, spec, tier):
+    """A BOUNDED NATIVE STAND-IN (labelled as such, never counted as proved): the driver enumerates a stated,
+    finite set of inputs completely on the real code compiled natively from `repo` and compares with an
+    executable copy of the specification.  Used only where neither verifier reaches the function
+    (EmbeddedWal::scan_records).  Returns an obligation dict."""
+    import time
+    t0 = time.time()
+    env = {k: (v[tier] if isinstance(v, dict) else v) for k, v in spec.get('env', {}).items()}
+    ob = {'name': spec['name'], 'backend': 'native-enumeration(cargo test)', 'kind': 'bounded', 'role': 'stand-in',
+          'bound': spec['bound'][tier] if isinstance(spec['bound'], dict) else spec['bound'], 'status': 'undecided',
+          'seconds': 0.0, 'detail': '', 'playback': False}
+    out, err = _run_driver(repo, spec['driver'], None, 0, timeout=spec.get('timeout', 1500), extra_env=env)
+    ob['seconds'] = time.time() - t0
+    if out is None:
+        ob['detail'] = 'native driver did not run: %s' % err
+        return ob
+    m = re.search(r'VERIF-REPLAY-FAIL (\w+)=(\S+) :: ([^\n]*)', out)
+    if m:
+        ob['status'] = 'refuted'
+        ob['detail'] = 'case %s: %s' % (m.group(2)[:300], m.group(3)[:400])
+        ob['native_failing_input'] = {'driver': spec['driver'], 'case': m.group(2), 'observed': m.group(3)}
+        return ob
+    m = re.search(r'VERIF-SEARCH-NONE ([^\n]*enumeration complete[^\n]*)', out)
+    if m:
+        ob['status'] = 'discharged'
+        ob['detail'] = m.group(1)
+        mm = re.search(r'tried=(\d+)', m.group(1))
+        ob['checks'] = int(mm.group(1)) if mm else 0
+        return ob
+    em = re.search(r'^(error(\[E\d+\])?: [^\n]*)', out, re.M)
+    ob['detail'] = 'native driver gave no verdict: ' + (em.group(1) if em else out[-300:])
+    return ob
+
+
 def find_failing_input(prop, ob, reg, repo, kout, verus_outs, extra=None):
     """Return a dict describing a concrete failing input on the real code, or None.  `extra` (a dict) receives
     material worth keeping in the replay file even when nothing was reproduced (the verifier's counterexample)."""
     extra = extra if extra is not None else {}
+    if ob.get('native_failing_input'):
+        fi = dict(ob['native_failing_input'])
+        fi['how_to_replay'] = './check %s --replay <this file>' % prop
+        return fi
     if ob.get('backend', '').startswith('kani') and ob.get('playback', True) and ob.get('harness_id'):
         import playback
         tag = re.sub(r'[^A-Za-z0-9]+', '_', ob['harness_id'])[-60:]
